@@ -89,6 +89,9 @@ const (
 )
 
 // NewFunction allocates a new function value.
+// MaxVarCnt is the largest parameter or local count a function value can hold.
+const MaxVarCnt = 1<<(paramsCntHi-paramsCntLo+1) - 1
+
 func NewFunction(node int, frame *[]Type, paramCnt int, localCnt int) Type {
 	nd := ((uint64)(node)) & ((1 << (ipHi - ipLo + 1)) - 1)
 	pc := ((uint64)(paramCnt)) & ((1 << (paramsCntHi - paramsCntLo + 1)) - 1)
